@@ -1022,9 +1022,24 @@ def r3_numbers(program, rep):
             raise AnalysisError("struct_file.num: the base is not a "
                                 "constant")
         n += 1
-        hexy = any(p_ and any(st[0] == "attr" and st[2] == "match"
-                              for st in subterms(t_))
-                   for t_, p_ in T.all_facts(T.cfg.node_of(r)))
+        hexy = False
+        for t_, p_ in T.all_facts(T.cfg.node_of(r)):
+            if not any(st[0] == "attr" and st[2] == "match"
+                       for st in subterms(t_)):
+                continue
+            # the pattern's answer as a truth value, or compared with None
+            if t_[0] in ("call", "callv") and t_[1][0] == "attr" and \
+                    t_[1][2] == "match":
+                matched = p_
+            elif t_[0] == "cmp" and t_[1] == "Is" and \
+                    t_[3] == ("const", None) and \
+                    t_[2][0] in ("call", "callv") and \
+                    t_[2][1][0] == "attr" and t_[2][1][2] == "match":
+                matched = not p_
+            else:
+                raise AnalysisError("struct_file.num: the test of the 0x "
+                                    "pattern is not a form this rule reads")
+            hexy = hexy or matched
         ok = base[1] == 16 and hexy or base[1] == 10 and not hexy
         rep.check(ok, "C20-R3", inst, "numbers are read in base 16 when "
                   "they match the 0x pattern, else in base 10",
